@@ -68,7 +68,7 @@ Obj(id) ==
     [] id = "tags"     -> [D("slice") EXCEPT !.es = <<"s:t0", "s:t1", "s:t2">>]
     [] id = "arr"      -> [D("array") EXCEPT !.es = <<"s:a0", "s:a1">>]
     [] id = "outers"   -> [D("slice") EXCEPT !.es = <<"outer">>]
-    [] id = "m"        -> [D("map") EXCEPT !.kk = "string", !.ks = <<Kv("a", "n:1"), Kv("zero", "n:0")>>]
+    [] id = "m"        -> [D("map") EXCEPT !.kk = "string", !.ks = <<Kv("a", "n:1"), Kv("zero", "n:0"), Kv("", "n:42")>>]     \* the empty string is a key like any other
     [] id = "mn"       -> [D("map") EXCEPT !.kk = "named", !.ks = <<Kv("k", "s:mn.k")>>]
     [] id = "mi"       -> [D("map") EXCEPT !.kk = "int", !.ks = <<Kv("1", "s:mi.1")>>]
     [] id = "mp"       -> [D("map") EXCEPT !.kk = "string", !.ks = <<Kv("o", "p_outer"), Kv("n", "nilp")>>]
@@ -93,7 +93,7 @@ FieldNames == {"TopName", "Outer", "Alpha", "Beta", "Gamma", "Core", "Name", "Ag
                "secret", "hidden", "Arr", "S", "MN", "MI", "NilM", "Nosuch", "a", "zero", "k", "nokey", "o", "n"}
 MethodNames == {"ValM", "PtrM", "InnerM", "NoM"}
 Steps == {NameStep(n, s) : n \in FieldNames, s \in {"dot", "br"}} \cup {CallStep(m) : m \in MethodNames}
-         \cup {IdxStep(i) : i \in -1..3} \cup {StrIdxOnSeq}
+         \cup {IdxStep(i) : i \in -1..3} \cup {StrIdxOnSeq} \cup {NameStep("", "br")}
          \cup {SliceStep(0, 1), SliceStep(1, -1), SliceStep(-1, 2), SliceStep(1, 9), SliceStep(2, 1), SliceStep(0, 0)}
 
 ---------------------------------------------------------------------------
